@@ -253,8 +253,12 @@ def classify_bids(case):
 ANIMALS = [a for a in ['fly', 'koi', 'bunny', 'mole', 'ox', 'cat', 'bear', 'crab', 'owl', 'yak']
            if a in PETNAMES]
 ADJECTIVES = ['able', 'clean', 'cuddly', 'informed', 'zany', 'big', 'Calm', 'quick']
+# (incl. names that are a prefix of another one followed by a character that sorts before '.':
+#  'face' / 'face-inverted', 'house' / 'house 2' - alphabetical order is that of the labels,
+#  not of the file names with their extension)
 STIM_BASES = ['stim118', 'stim117', 'beach', 'river', 'fireplace', 'a', 'B', 'zz', 'stim2',
-              'stim10', 'Alpha', 'c3', 'x', 'img007', 'house', 'face']
+              'stim10', 'Alpha', 'c3', 'x', 'img007', 'house', 'face', 'face-inverted', 'house 2',
+              'face+body', 'a-1']
 STIM_EXTS = ['png', 'jpg', 'jpeg', 'mp4', 'gif']
 name_st = st.text(alphabet='abcdefghijklmnopqrstuvwxyzABCDEFGHIJKLMNOPQRSTUVWXYZ0123456789',
                   min_size=1, max_size=7)
